@@ -264,8 +264,12 @@ Proof. induction d as [o0 it|l IHl r IHr]; intros Hwf Hk Hnd Hmd Hfuel; cbn in *
     rewrite app_length in Hmd, Hfuel.
     assert (Hml : (md = Fixed \/ length (ditems l) <= 3)%nat) by (destruct Hmd; [now left|right; lia]).
     assert (Hmr : (md = Fixed \/ length (ditems r) <= 3)%nat) by (destruct Hmd; [now left|right; lia]).
-    destruct (IHl Wl Kl (nodup_app_l _ _ Hnd) Hml ltac:(nia)) as (a & Ea).
-    destruct (IHr Wr Kr (nodup_app_r _ _ Hnd) Hmr ltac:(nia)) as (b & Eb).
+    assert (Hfl : (length (ditems l) * length (ditems l) <= fuel)%nat).
+    { eapply Nat.le_trans; [|exact Hfuel]. apply Nat.mul_le_mono; lia. }
+    assert (Hfr : (length (ditems r) * length (ditems r) <= fuel)%nat).
+    { eapply Nat.le_trans; [|exact Hfuel]. apply Nat.mul_le_mono; lia. }
+    destruct (IHl Wl Kl (nodup_app_l _ _ Hnd) Hml Hfl) as (a & Ea).
+    destruct (IHr Wr Kr (nodup_app_r _ _ Hnd) Hmr Hfr) as (b & Eb).
     rewrite Ea, Eb.
     destruct (eval_sound k md fuel l a Wl Kl Hml Ea) as (ia & Pa & Da).
     destruct (eval_sound k md fuel r b Wr Kr Hmr Eb) as (ib & Pb & Db).
